@@ -249,6 +249,28 @@ def gen_par(rng, reps):
     return {"programs": progs, "reps": reps, "names": names}
 
 
+def gen_par_wild(rng, j, reps):
+    """Round 3 (seed C18-5): unrelated programs whose rule bodies hold many wildcards (each one is replaced by
+    a fresh variable X0, X1, ... during analysis). Case j uses more wildcards than every case before it, every
+    goroutine its own predicate names and its own count, and the parallel runs come BEFORE the runs alone
+    (par_first), so that process-wide lazily grown state is grown by several goroutines at once."""
+    g = rng.randint(4, 8)
+    lo = 50 + 90 * j
+    ks = rng.sample(range(lo, lo + 80), g)
+    progs = []
+    for t, k in enumerate(ks):
+        r, q = "r%d_%d" % (t, k), "q%d_%d" % (t, k)
+        twos = ",".join(str(rng.randint(1, 6)) for _ in range(k))
+        wild = ",".join("_" for _ in range(k))
+        progs.append("%s(1,%s). %s(2,%s). %s(A) :- %s(A,%s). %s2(A,B) :- %s(A,%s), %s(B,%s), A != B."
+                     % (r, twos, r, twos, q, r, wild, q, r, wild, r, wild))
+    return {"programs": progs, "reps": reps, "names": ["wild%d" % k for k in ks], "par_first": True}
+
+
+def par_in(c):
+    return {"programs": c["programs"], "reps": c["reps"], "par_first": bool(c.get("par_first"))}
+
+
 def synth_history(rng):
     """A history produced by a random atomic interleaving (hence linearizable), then,
     half of the time, one result is replaced by another value of the same type. Used to
@@ -466,11 +488,12 @@ def run(ck):
             c["threads"] = [[gen_op(rrng, mix) for _ in range(6)] for _ in range(4)]
             c["base"] = "simple"
             rc_cases.append(go_conc_case(c))
-    rp_cases = [gen_par(rrng, ck.n(4, 8)) for _ in range(ck.n(12, 60))]
+    # wildcard-heavy cases first: the fresh-variable machinery must be cold when they run in parallel
+    rp_cases = [gen_par_wild(rrng, j, 3) for j in range(4)] + [gen_par(rrng, ck.n(4, 8)) for _ in range(ck.n(12, 60))]
 
     def race_job():
         _, a, b = run_bin(race_exe, "c18_conc", rc_cases)
-        _, c_, d = run_bin(race_exe, "c18_par", [{"programs": c["programs"], "reps": c["reps"]} for c in rp_cases])
+        _, c_, d = run_bin(race_exe, "c18_par", [par_in(c) for c in rp_cases])
         return (a, b), (c_, d)
     pool = ThreadPoolExecutor(max_workers=1)
     race_future = pool.submit(race_job) if race_exe else None
@@ -574,8 +597,8 @@ def run(ck):
     ck.log("judge self-test: %d synthetic histories, %d non-linearizable, lin_check agrees with the oracle on all"
            % (len(synth), synth_rejected))
     # 5. RUNTIME PART: parallel parse/analyse/evaluate vs alone
-    par_cases = [gen_par(rng, ck.n(8, 15)) for _ in range(ck.n(40, 200))]
-    pouts = ck.run_go("c18_par", [{"programs": c["programs"], "reps": c["reps"]} for c in par_cases])
+    par_cases = [gen_par_wild(rng, j, 3) for j in range(4)] + [gen_par(rng, ck.n(8, 15)) for _ in range(ck.n(40, 200))]
+    pouts = ck.run_go("c18_par", [par_in(c) for c in par_cases])
     par_evals, par_diff, par_err = 0, 0, 0
     for c, o in zip(par_cases, pouts):
         if "out" not in o:
